@@ -642,7 +642,7 @@ func closure(run *vlib.Run, wal bool) (states, transitions, maxDepth int, sample
 
 type BCfg struct {
 	WAL   bool   `json:"wal"`
-	Inner string `json:"inner"` // recover | apply | unhalt (the replica gives its remote halt lock back, which checkpoints its WAL) | export-hot | recover-recreate | expired-forward
+	Inner string `json:"inner"` // recover | apply | unhalt (the replica gives its remote halt lock back, which checkpoints its WAL) | export-hot | recover-recreate | expired-forward | import-leave-wal (the application leaves WAL mode while an import asks for the internal write lock)
 }
 
 func harnessB(cfgJSON json.RawMessage) sched.Harness {
@@ -819,8 +819,14 @@ func harnessB(cfgJSON json.RawMessage) sched.Harness {
 						}
 						st := cgs.Guard(l).State()
 						conflict := st == litefs.RWMutexStateExclusive || (st == litefs.RWMutexStateShared && l != litefs.LockTypeDMS && (d.Mode() != litefs.DBModeWAL || (l != litefs.LockTypeShared && l != litefs.LockTypePending)))
+						if d.Mode() == litefs.DBModeWAL && (l == litefs.LockTypePending || l == litefs.LockTypeReserved) {
+							// a connection that is about to leave WAL mode queues for EXCLUSIVE on the database file with
+							// RESERVED and PENDING; a WAL-mode writer - SQLite's or LiteFS's - conflicts with neither (it is
+							// the writer's SHARED that keeps that connection waiting)
+							conflict = false
+						}
 						if conflict {
-							v("C11/internal-write-while-client-holds/"+l.String(), "LiteFS wrote page %d on its own while the application connection holds %s (%s)", a, l, st)
+							v("C11/internal-write-while-client-holds/"+l.String(), "LiteFS wrote page %d on its own while the application connection holds %s (%s) in %v", a, l, st, d.Mode())
 						}
 					}
 				}
@@ -851,6 +857,27 @@ func harnessB(cfgJSON json.RawMessage) sched.Harness {
 			tries := 0
 			wc.Busy = func() bool { tries++; time.Sleep(300 * time.Microsecond); return tries < 30 }
 			defer wc.Close()
+			if cfg.Inner == "import-leave-wal" {
+				// PRAGMA journal_mode=DELETE on the WAL database (checkpoint, unlink the log, rewrite page 1 through a
+				// rollback journal), then a read under SHARED - the rollback protocol from here on
+				if err := wc.LeaveWAL(); err != nil {
+					aErr = "busy"
+					return
+				}
+				if w := wc.RunRTx(pager.RTx{FromWAL: true, Final: "DELETE", Outcome: "commit"}, img); w.Err != nil || !w.Committed {
+					aErr = "busy"
+					return
+				}
+				wc.Before = func(step int, desc string) {
+					if strings.HasPrefix(desc, "read db page") {
+						th.Point(desc) // holds SHARED across scheduling points
+					}
+				}
+				if _, err := wc.ReadImage(); err != nil {
+					aErr = "busy-read"
+				}
+				return
+			}
 			if cfg.Inner == "recover-recreate" {
 				w := wc.RunRTx(pager.RTx{Create: true, NewSize: 3, Final: "DELETE", Outcome: "commit"}, nil)
 				if w.Err != nil {
@@ -887,6 +914,13 @@ func harnessB(cfgJSON json.RawMessage) sched.Harness {
 			}
 			if cfg.Inner == "expired-forward" {
 				_ = fwdClient.Commit(ctx, "http://P", 0xF00D, "db", 4711, bytes.NewReader(fwdData))
+				return
+			}
+			if cfg.Inner == "import-leave-wal" {
+				// LiteFS's own writer: an import, which takes the internal write lock and rewrites every page
+				im := &oracle.Image{PageSize: ps}
+				im.Pages = append(im.Pages, pager.MakePage1(ps, 0x9300, 2, false, 5), pager.MakePage(ps, 2, 0x9300))
+				_ = db.Import(ctx, bytes.NewReader(im.Bytes()))
 				return
 			}
 			// a commit on the primary makes the replica apply (the apply runs on the replica's stream goroutine,
@@ -952,7 +986,7 @@ func TestCheck(t *testing.T) {
 	}
 	var bInfo []any
 	bExec := 0
-	for _, cfg := range []BCfg{{WAL: false, Inner: "recover"}, {WAL: true, Inner: "recover"}, {WAL: false, Inner: "apply"}, {WAL: true, Inner: "apply"}, {WAL: true, Inner: "unhalt"}, {WAL: false, Inner: "export-hot"}, {WAL: true, Inner: "recover-recreate"}, {WAL: false, Inner: "expired-forward"}, {WAL: true, Inner: "expired-forward"}} {
+	for _, cfg := range []BCfg{{WAL: false, Inner: "recover"}, {WAL: true, Inner: "recover"}, {WAL: false, Inner: "apply"}, {WAL: true, Inner: "apply"}, {WAL: true, Inner: "unhalt"}, {WAL: false, Inner: "export-hot"}, {WAL: true, Inner: "recover-recreate"}, {WAL: false, Inner: "expired-forward"}, {WAL: true, Inner: "expired-forward"}, {WAL: true, Inner: "import-leave-wal"}} {
 		var tot sched.Totals
 		sched.Distributed(t, run, pool, reg, "c11b", cfg, bound, 3, 5*time.Minute, &tot)
 		bExec += tot.Executions
